@@ -421,7 +421,7 @@ theorem sortByPriorityE_typeError_iff (pi : Nat) (l : List Rule) :
 
 /-! ### on numeric priorities the total sort IS C07's load sort (ascending, stable) -/
 
-theorem insertByLe_natLe_eq (pi : Nat) (r : Rule) (p : Nat) (hp : prioOf pi r = some p) (acc : List Rule)
+theorem insertByLe_natLe_eq (pi : Nat) (r : Rule) (p : Int) (hp : prioOf pi r = some p) (acc : List Rule)
     (hn : C07.AllNumeric pi acc) : insertByLe (natLe pi) r acc = insertSorted pi r acc := by
   induction acc with
   | nil => simp [insertByLe, insertSorted]
